@@ -109,6 +109,9 @@ class World(object):
         self.sbml = sbml
         self.reduced_user_model = reduced_user_model
         self.entries = []        # (object name, call name, fn, args list)
+        # entry index -> results of the same calls, each on a freshly built
+        # object that was never evaluated before
+        self.fresh = {}
         if sbml:
             from chi.library import ModelLibrary
             um = ModelLibrary().one_compartment_pk_model()
@@ -263,6 +266,24 @@ class World(object):
             ('predictive', 'sample_table',
              lambda a, pm=pm: pm.sample(a, TIMES, n_samples=2, seed=seed),
              pts[:1]))
+        # ---- posterior predictive model: one object serves several
+        # individuals (the argument is the position of the individual)
+        from checks import c15
+        ids_pp = ['ind a', 'ind b', 'ind c']
+        ds_pp = c15._posterior_dataset(rng, pm.get_parameter_names(), 2, 5,
+                                       ids_pp)
+        ppm = chi.PosteriorPredictiveModel(pm, ds_pp)
+        self.entries.append(
+            ('posterior_predictive', 'sample',
+             lambda a, m_=ppm: m_.sample(
+                 TIMES, n_samples=3, individual=ids_pp[int(a[0])],
+                 seed=seed)['Value'].to_numpy(dtype=float),
+             [_ro(np.array([0.0])), _ro(np.array([1.0])),
+              _ro(np.array([2.0]))]))
+        self.fresh[len(self.entries) - 1] = [
+            _freeze(chi.PosteriorPredictiveModel(pm, ds_pp).sample(
+                TIMES, n_samples=3, individual=i_, seed=seed)[
+                    'Value'].to_numpy(dtype=float)) for i_ in ids_pp]
         # ---- the user's own model (and a copy)
         mp = [_ro(mech), _ro(mech * 1.1)]
         self.entries.append(('user_model_copy', 'simulate',
@@ -456,6 +477,17 @@ def run_history(ctx, rng, world, n_calls, feats, schedule=None):
                 name.rstrip('0123456789'), call)))
             if len(held) > 6:
                 held.pop(0)
+        if ei in world.fresh:
+            ctx.count('compared_with_fresh_object')
+            want = world.fresh[ei][ai % len(args)]
+            if not _equal(want, snap):
+                ctx.violation(
+                    'repeat_returns_same_result',
+                    'differs_from_fresh_object:%s.%s' % (
+                        name.rstrip('0123456789'), call),
+                    {'fresh object': want, 'this object': snap,
+                     'step': step, 'calls_before': kinds[:-1][-10:]}, feats)
+                return
         key = (ei, ai % len(args))
         if key in first:
             ctx.count('repeats_compared')
